@@ -107,6 +107,45 @@ func c18Driver(maxEntries int) func(c *explore.Chooser) *c18Case {
 	}
 }
 
+// c18SpecialCases: characters that mean something to a formatter, to Markdown or to a path, in the title, the
+// content and the file name: every special title x every special content for a single entry, and as the
+// first and as the second of two entries.  "Verbatim" and "the text after the first space" are about
+// exactly these.
+func c18SpecialCases() []*c18Case {
+	titles := []string{" 100% pure", " verbs %s and %d %v", " %", " `code` *md* _u_ # not a heading", " <b>html</b> &amp;", " back\\slash \\n", " é ünï 日本", " tab\there", " ```", " a  b   c"}
+	contents := []string{"100% %s %d %v %%\n", "`tick` ``two``\n", "# heading\n### h3\n", "back\\slash \\n \\t\n", "é ünï 日本\n", "\ttab and trailing blanks   \n", "\r\nCRLF\r\n", "[link](gen_x.go)\n"}
+	names := []string{"s0.fo", "a-b_c.fo", "UPPER.fo", "x.y.fo", "fo.fo"}
+	var out []*c18Case
+	mk := func(ents []c18Entry, tag string) {
+		cs := &c18Case{entries: ents, scale: tag}
+		var lines []string
+		for i := range cs.entries {
+			e := &cs.entries[i]
+			e.line = e.name + e.title
+			if e.title == "" {
+				e.title = e.name // no space in the line: the title is the file name
+			} else {
+				e.title = strings.TrimPrefix(e.title, " ")
+			}
+			lines = append(lines, e.line)
+		}
+		cs.list = strings.Join(lines, "\n") + "\n"
+		out = append(out, cs)
+	}
+	for ti, t := range titles {
+		for ci, ct := range contents {
+			mk([]c18Entry{{name: "s0.fo", title: t, content: ct}}, fmt.Sprintf("special title=%d content=%d", ti, ci))
+		}
+		mk([]c18Entry{{name: "s0.fo", title: t, content: c18Contents[0]}, {name: "s1.fo", title: " Plain", content: c18Contents[3]}}, fmt.Sprintf("special title=%d first of two", ti))
+		mk([]c18Entry{{name: "s0.fo", title: " Plain", content: c18Contents[3]}, {name: "s1.fo", title: t, content: c18Contents[0]}}, fmt.Sprintf("special title=%d second of two", ti))
+	}
+	for ni, n := range names {
+		mk([]c18Entry{{name: n, title: " Named", content: c18Contents[0]}}, fmt.Sprintf("special name=%d with title", ni))
+		mk([]c18Entry{{name: n, title: "", content: c18Contents[0]}}, fmt.Sprintf("special name=%d without title", ni))
+	}
+	return out
+}
+
 // c18ScaleCases: lists of 5..65 entries (thorough 200) x content sizes (small, 5 kB, 70 kB in one / in every
 // entry) x a missing file at no / the first / a middle / the last position x what README.md was there
 // before.  Every list of up to 2-3 entries is enumerated; a renderer that buffers, truncates or drops
@@ -305,7 +344,7 @@ func checkC18(c *core.Ctx) {
 		})
 		c.Count(0, st.States, st.Transitions, 0)
 		c.Set("explorer", map[string]any{"executions": st.Executions, "max_depth": st.MaxDepth, "stopped_early": st.Stopped})
-		sc := c18ScaleCases(c.Thorough())
+		sc := append(c18SpecialCases(), c18ScaleCases(c.Thorough())...)
 		for _, cs := range sc {
 			if c.Expired() {
 				c.NotExhaustive("scale family not completed")
